@@ -1252,7 +1252,16 @@ hwloc__groups_by_distances(struct hwloc_topology *topology,
              * the sets, total memory, group depth, etc. of the new Group must be set up
              * since the core won't do it later as it does during discovery.
              */
+          {
+            /* the Group is inserted by cpuset, some CPU-less objects may not end up below it.
+             * drop the nodesets and let the core compute them from what the Group actually contains.
+             */
+            hwloc_bitmap_free(group_obj->nodeset);
+            group_obj->nodeset = NULL;
+            hwloc_bitmap_free(group_obj->complete_nodeset);
+            group_obj->complete_nodeset = NULL;
             res_obj = hwloc_topology_insert_group_object(topology, group_obj);
+          }
           else
             res_obj = hwloc__insert_object_by_cpuset(topology, NULL, group_obj,
                                                      (kind & HWLOC_DISTANCES_KIND_FROM_USER) ? "distances:fromuser:group" : "distances:group");
